@@ -44,13 +44,13 @@ fn write_lines(path: &std::path::Path, lines: &[J]) {
     std::fs::write(path, s).unwrap();
 }
 
-pub struct BatchObs { pub records: Vec<J>, pub status: String, pub consumed: u64, pub raw: Vec<String> }
+pub struct BatchObs { pub records: Vec<J>, pub status: String, pub consumed: u64, pub raw: Vec<String>, pub join_calls: u64 }
 
 /// one batch run through FileExecutor with JSON output; `intr` = the model's interrupt point
 pub fn run_batch(tables: &sqlgrep::Tables, query: &str, files: &[std::path::PathBuf], intr: &J, format: OutputFormat) -> BatchObs {
     let stmt = match sqlgrep::parsing::parse(query) {
         Ok(s) => s,
-        Err(e) => return BatchObs { records: vec![], status: format!("parse_err: {}", e), consumed: 0, raw: vec![] }
+        Err(e) => return BatchObs { records: vec![], status: format!("parse_err: {}", e), consumed: 0, raw: vec![], join_calls: 0 }
     };
     let running = Arc::new(AtomicBool::new(true));
     let lines = Rc::new(RefCell::new(Vec::new()));
@@ -65,6 +65,8 @@ pub fn run_batch(tables: &sqlgrep::Tables, query: &str, files: &[std::path::Path
     let calls = Rc::new(RefCell::new(0usize));
     let c2 = calls.clone();
     let at1 = at.clone();
+    let jcalls = Rc::new(RefCell::new(0u64));
+    let jc2 = jcalls.clone();
     verif_hooks::install(Hooks {
         follow_retry: None,
         batch_line: Some(Box::new(move |_f, _l| {
@@ -72,7 +74,7 @@ pub fn run_batch(tables: &sqlgrep::Tables, query: &str, files: &[std::path::Path
             if at1 == "line" && *c == n { r1.store(false, Ordering::SeqCst); }
             *c += 1;
         })),
-        join_line: Some(Box::new(move |i| { if at == "join" && i == n { r2.store(false, Ordering::SeqCst); } }))
+        join_line: Some(Box::new(move |i| { *jc2.borrow_mut() += 1; if at == "join" && i == n { r2.store(false, Ordering::SeqCst); } }))
     });
     let res = std::panic::catch_unwind(std::panic::AssertUnwindSafe(|| {
         let engine = ExecutionEngine::new(tables, &stmt);
@@ -84,7 +86,8 @@ pub fn run_batch(tables: &sqlgrep::Tables, query: &str, files: &[std::path::Path
     let raw = lines.borrow().clone();
     let (status, consumed) = match res { Ok((true, c)) => ("ok".to_string(), c), Ok((false, c)) => ("err".to_string(), c), Err(_) => ("panic".to_string(), 0) };
     let records = raw.iter().filter(|l| !l.is_empty()).map(|l| serde_json::from_str::<J>(l).unwrap_or(json!({"\u{0}unparsable": l}))).collect();
-    BatchObs { records, status, consumed, raw }
+    let join_calls = *jcalls.borrow();
+    BatchObs { records, status, consumed, raw, join_calls }
 }
 
 /// expected rows (abstract) -> expected JSON records; None if a value has no JSON form (non-finite REAL)
@@ -130,14 +133,15 @@ pub fn replay(cases: &[J]) -> J {
                 paths.push(p);
             }
             let obs = run_batch(&tables, &query, &paths, &case["intr"], OutputFormat::Json);
-            let observed = json!({"records": obs.records, "status": obs.status, "consumed": obs.consumed, "query": query});
+            let observed = json!({"records": obs.records, "status": obs.status, "consumed": obs.consumed, "join_lines_read": obs.join_calls, "query": query});
             let exp_recs = expected_records(&case["cols"], &case["printed"]);
-            let expected = json!({"records": exp_recs, "status": exp_status, "consumed": case["consumed"]});
+            let expected = json!({"records": exp_recs, "status": exp_status, "consumed": case["consumed"], "join_lines_read": case["jcalls"]});
             let ok = match exp_status {
                 "unk" => obs.status != "panic" && !obs.status.starts_with("parse_err"),
                 _ => obs.status == exp_status
                      && exp_recs.as_ref().map(|e| records_match(&obs.records, e)).unwrap_or(true)
                      && (exp_status == "panic" || obs.consumed == case["consumed"].as_u64().unwrap())
+                     && (exp_status != "ok" || case["jcalls"].as_u64().map(|j| j == obs.join_calls).unwrap_or(true))
             };
             if ok {
                 for d in &devs { rep.dev_witness(d, case); rep.count(&format!("dev_{}", d)); }
